@@ -147,6 +147,10 @@ type BoolVal struct {
 	// Src is the SSA value of the branch condition this path condition was
 	// decided on (set when the path forked), for audits of its arithmetic.
 	Src ssa.Value
+	// Exact, when set, records whether the machine arithmetic that computed
+	// the condition provably equals its exact-integer reading (no wrap-around),
+	// judged where the path forked, with the operand values then known.
+	Exact *bool
 }
 
 func boolConst(b bool) *BoolVal { return &BoolVal{Const: &b} }
@@ -170,7 +174,7 @@ func (b *BoolVal) Not() *BoolVal {
 	}
 	neg := map[string]string{"<": ">=", "<=": ">", "==": "!=", "!=": "==", ">": "<=", ">=": "<"}
 	if n, ok := neg[b.Op]; ok {
-		return &BoolVal{Op: n, A: b.A, B: b.B, Src: b.Src}
+		return &BoolVal{Op: n, A: b.A, B: b.B, Src: b.Src, Exact: b.Exact}
 	}
 	if b.Op == "not" {
 		return b.A.(*BoolVal)
